@@ -305,7 +305,33 @@ def w_c05(seed):
     return _table(C05_CASES, "simplification", "displayed / printed / interpolated values keep explicitly chosen units and simplify the others")
 
 
-FINDERS = {"C09": w_c09, "C18": w_c18, "C06": w_c06, "C02": lambda s: w_c06(s, want_c02=True), "C11": w_c11, "C12": w_c12, "C21": w_c21, "C20": w_c20, "C10": w_c10, "C04": w_c04, "C05": w_c05}
+# ---------------------------------------------------------------- C17 / C07: input sequences (each element is one input of ONE session)
+def _sequence(seq, what, note):
+    got, raw = session([c for c, _ in seq])
+    for i, (inp, want) in enumerate(seq):
+        if want is None:
+            continue
+        r = got.get(i, [])
+        vals = [v.strip() for k, v in r if k in ("OK", "PRINT")]
+        if want not in vals:
+            text = "\n%%\n".join(c for c, _ in seq[:i + 1])
+            return {"found": True, "kind": "session", "what": f"{what}: input #{i} `{inp}` gives {vals or r[:1]} but must give {want}", "input": text, "output": str(r)[:400], "cmd": f"{BIN} session", "stdin": text}
+    return {"found": False, "note": f"{len(seq)} {note}"}
+
+
+def w_c17(seed):
+    seq = [("use prelude", "<continue>"), ("use extra::astronomy", "<continue>"), ("use extra::astronomy", "<continue>"), ("lunar_radius -> km", "1737.4 km"),
+           ("use prelude", "<continue>"), ("1 m + 2 m", "3 m"), ("use units::si\nuse units::si\nuse core::scalar", "<continue>"), ("3 kg", "3 kg"),
+           ("use extra::astronomy\nuse prelude\nuse extra::astronomy", "<continue>"), ("lunar_radius -> km", "1737.4 km")]
+    return _sequence(seq, "imports", "inputs with repeated imports of already imported modules succeed and change nothing")
+
+
+def w_c07(seed):
+    seq = [("use prelude", None), ("2 + 3", "5"), ("ans * 2", "10"), ("7\n_ + 1", "8"), ("ans", "8"), ("let vx_x = 4\nvx_x + ans", "12"), ("ans + _", "24")]
+    return _sequence(seq, "last result", "inputs using `ans` / `_` give the value of the most recent expression statement, one at a time or batched")
+
+
+FINDERS = {"C09": w_c09, "C18": w_c18, "C06": w_c06, "C02": lambda s: w_c06(s, want_c02=True), "C11": w_c11, "C12": w_c12, "C21": w_c21, "C20": w_c20, "C10": w_c10, "C04": w_c04, "C05": w_c05, "C17": w_c17, "C07": w_c07}
 
 
 def find(prop, obligation, tier):
